@@ -47,6 +47,11 @@ type lkCase struct {
 	Reuse    bool     `json:"reuse"`
 	// letter -> byte (hex) used for keys, children of the listing and prefixes on the wire; nil: the letters themselves
 	Alphabet map[string]string `json:"alphabet"`
+	// one more node that is built with the ring but not joined (id, store kind); Churn: after the first listing a member leaves
+	// ("leave") or the spare node joins ("join"), the ring settles and everything is listed again
+	Spare      string `json:"spare"`
+	SpareStore string `json:"spare_store"`
+	Churn      string `json:"churn"`
 }
 
 // conc turns an abstract key (letters) into the bytes stored; abs is its inverse for keys that come back
@@ -152,7 +157,7 @@ func (l *liveRing) teardown() {
 }
 
 func sigOf(c lkCase) string {
-	return strings.Join(c.IDs, ",") + "|" + strings.Join(c.Stores, ",") + "|" + strconv.FormatInt(c.Order, 10)
+	return strings.Join(c.IDs, ",") + "|" + strings.Join(c.Stores, ",") + "|" + strconv.FormatInt(c.Order, 10) + "|" + c.Spare + c.SpareStore
 }
 
 func build(c lkCase) (*liveRing, string) {
@@ -166,10 +171,21 @@ func build(c lkCase) (*liveRing, string) {
 		}
 		layout[k] = ring.Item{N: strconv.Itoa(k), ID: v, Zero: v == 0}
 	}
+	if c.Spare != "" {
+		v, err := strconv.ParseUint(c.Spare, 10, 64)
+		if err != nil {
+			return nil, "bad id " + c.Spare
+		}
+		layout = append(layout, ring.Item{N: "s", ID: v, Zero: v == 0})
+	}
 	l.r = ring.Build(layout, verifkit.Seed(), 0, zap.NewNop())
 	l.r.MkKV = func(name string) chord.KVProvider {
-		k, _ := strconv.Atoi(name)
-		switch c.Stores[k] {
+		kind := c.SpareStore
+		if name != "s" {
+			k, _ := strconv.Atoi(name)
+			kind = c.Stores[k]
+		}
+		switch kind {
 		case "sqlite":
 			d := filepath.Join(l.dir, "n"+name)
 			os.MkdirAll(d, 0o755)
@@ -324,6 +340,58 @@ func runCase(i int, c lkCase) map[string]any {
 		}
 	}
 	out["lists"] = lists
+	if c.Churn != "" {
+		// a membership change with the content in place, then the same listings again
+		cerr := "ok"
+		switch c.Churn {
+		case "leave":
+			if len(l.nodes) >= 2 {
+				k, victim := pick()
+				victim.Leave()
+				l.byIdx[k] = nil
+				var rest []*implchord.LocalNode
+				for _, n := range l.nodes {
+					if n != victim {
+						rest = append(rest, n)
+					}
+				}
+				l.nodes = rest
+				out["churned"] = k
+			}
+		case "join":
+			sp := l.r.Node("s")
+			byID.put(sp)
+			via := l.nodes[rnd.Intn(len(l.nodes))]
+			if err := sp.Join(via); err != nil {
+				cerr = "join: " + ring.ErrClass(err)
+			} else {
+				l.nodes = append(l.nodes, sp)
+				l.byIdx = append(l.byIdx, sp)
+				out["churned"] = len(l.byIdx) - 1
+			}
+		}
+		out["churn_err"] = cerr
+		out["stable2"] = l.settle()
+		var lists2 [][]any
+		for k, n := range l.byIdx {
+			if n == nil {
+				continue
+			}
+			for pi, p := range c.Prefixes {
+				ks, err := n.ListKeys(ctx, conc(c.Alphabet, p))
+				got := [][]string{}
+				for _, kc := range ks {
+					got = append(got, []string{abs(c.Alphabet, kc.GetKey()), kc.GetType().String()})
+				}
+				sort.Slice(got, func(a, b int) bool { return got[a][0]+"\x00"+got[a][1] < got[b][0]+"\x00"+got[b][1] })
+				lists2 = append(lists2, []any{k, pi, got, ring.ErrClass(err)})
+			}
+		}
+		out["lists2"] = lists2
+		l.stable = false // the ring is not the one of the case any more: the next case builds its own
+		out["cleaned"] = true
+		return out
+	}
 	// remove the content through the ring again and verify that every store is empty
 	clean := true
 	for _, s := range st {
